@@ -72,6 +72,12 @@ func (w *World) c19Cross(v *accountant.Vertex, label string) {
 					}
 				} else {
 					w.probe("c19-wire-trx-refused")
+					t := &v.Transaction
+					if t.Subject != "" && t.IssuerAddress != "" && t.ReceiverAddress != "" && len(t.IssuerSignature) > 0 {
+						// a complete transaction must survive the crossing; only content the wire format cannot
+						// carry (text that is not UTF-8) is refused at encoding, before this point
+						w.violate("C19", "wire", "complete-transaction-refused-by-wire-mapper", -1, "%s: %v (created at %d ns)", label, err, t.CreatedAt.UnixNano())
+					}
 				}
 			}
 		} else {
@@ -237,7 +243,7 @@ func codecScenario(w *World, p *Plan, rec *Record) {
 		case 3:
 			v.CreatedAt = time.Unix(0, 9223372036854775807)
 		case 4:
-			v.Transaction.CreatedAt = time.Unix(0, 1)
+			v.Transaction.CreatedAt = []time.Time{time.Unix(0, 1), time.Unix(0, 0), time.Unix(0, -1), time.Unix(0, -9223372036854775808), time.Unix(0, 9223372036854775807), time.Unix(1<<34, 0)}[r.Intn(6)]
 		}
 		// signatures of odd lengths are legal byte strings on every crossing
 		if r.Chance(0.2) {
